@@ -22,7 +22,7 @@ RULE = ("(a) exhaustive: all call sequences of length <= 3 over 6 actions x cate
         "(broker, category, budget, sequence); trivial = none")
 ASSUMPTIONS = ["Redis and RabbitMQ are wire-level fakes", "broker calls are counted by harness-side recorders at the broker boundary (top level only)"]
 EVAL_COUNTER = "calls_judged"
-REQUIRED = ["calls_judged", "refusals_checked", "second_actions_checked", "eager_sequences", "callback_orders_checked"]
+REQUIRED = ["calls_judged", "refusals_checked", "second_actions_checked", "eager_sequences", "callback_orders_checked", "eager_in_dependency"]
 CASE_TIMEOUT = 120
 
 ACTIONS = ("ack", "nack", "reject", "reschedule", "retry", "force_retry")
@@ -160,14 +160,41 @@ async def eager_sequences(loop, kind, pres, out, stats, fps, samples):
                     st["next"] = 3600.0
                 plan[id_] = (pre, action)
                 await w.job("act", id_, {"by_attempt": [st, {"do": "ok"}]}, retries=1, store_result=True, result_id="res-" + id_, timeout=timedelta(seconds=30)).enqueue()
+        # eager responses performed inside a dependency provider (through the message handle injected into it)
+        from rv.actors import register_guarded_actor
+
+        register_guarded_actor(r, w.log)
+        guarded = {}
+        for action in ACTIONS:
+            id_ = f"g-{action}-{len(pres)}"
+            guarded[id_] = action
+            await w.job("guarded", id_, {"eager_in_dep": action}, retries=1, store_result=False, timeout=timedelta(seconds=30)).enqueue()
         worker = w.worker([r], tasks_limit=5, graceful_shutdown_time=5.0, handle_signals=[__import__("signal").SIGUSR1])
 
         def done():
-            return len({e["id"] for e in w.log.events if e.get("k") == "actor_eager"}) >= len(plan) and not w.inflight
+            return len({e["id"] for e in w.log.events if e.get("k") == "actor_eager"}) >= len(plan) and len({e["id"] for e in w.log.events if e.get("k") == "dep_eager"}) >= len(guarded) and not w.inflight
 
         info = await run_worker(w, worker, until=done, horizon=40.0, poll=0.05)
         if info["exc"] is not None or not info["returned"]:
             out.append(V("worker_died", kind, "run", f"{info}"))
+        for id_, action in guarded.items():
+            stats["eager_in_dependency"] += 1
+            fps.add(f"{kind}/eager-in-dep/{action}")
+            ev = [e for e in w.log.events if e.get("id") == id_]
+            first = next((e["n"] for e in ev if e["k"] == "dep_eager"), None)
+            if first is None:
+                out.append(V("harness_or_api_error", kind, "eager-in-dep-not-run", f"{id_} never reached its provider"))
+                continue
+            nxt = next((e["n"] for e in ev if e["n"] > first and e["k"] == "ret" and e.get("op") == "consume"), 10**12)
+            seg = [e for e in ev if first < e["n"] < nxt]
+            disp = [e["op"] for e in seg if e["k"] == "call" and e.get("depth") == 0 and e.get("op") in ("ack", "nack", "reject", "requeue")]
+            if any(e["k"] == "dep_continued" for e in seg):
+                out.append(V("body_continued", kind, f"in-dependency/{action}", f"provider continued after its eager {action}"))
+            if any(e["k"] == "actor_start" for e in seg):
+                g = next(e.get("guard") for e in seg if e["k"] == "actor_start")
+                out.append(V("body_continued", kind, f"in-dependency/{action}/actor-ran", f"a provider answered eagerly ({action}) but the actor body still ran, receiving {g!r} for that dependency"))
+            if disp != [BROKER_OP[action]]:
+                out.append(V("extra_disposition" if len(disp) > 1 else "wrong_broker_calls", kind, f"in-dependency/{action}", f"eager {action} inside a provider: terminal broker calls {disp}, expected [{BROKER_OP[action]}]"))
         for id_, (pre, action) in plan.items():
             stats["eager_sequences"] += 1
             fps.add(f"{kind}/eager/{pre}/{action}")
